@@ -82,6 +82,12 @@ func Y(site uint32) {
 	}
 }
 
+// OnMain reports whether the calling goroutine is the one that BeginSingle was
+// called on, i.e. the goroutine that runs gopatch's main.
+//
+//go:norace
+func OnMain() bool { return mode != modeSingle || getg() == mainG }
+
 // BeginSingle starts step accounting for the calling goroutine.
 //
 //go:norace
